@@ -8,11 +8,12 @@ One Lean branch per Go `case`. Go faults are explicit (`Except Fault`): the inte
 
 The model is parametrised by `Dev`, the list of operator-level DEVIATIONS of the pinned tree from the
 specification (known findings C12-uncomparable-panic, C12-neq-float, C12-int-via-float64). `Dev.pinned`
-is the unchanged code; switching a flag off gives the code with the corresponding proposed fix applied.
+is the tree as first pinned, `Dev.current` the code after the applied `fix:` commits; switching a flag off
+gives the code with the corresponding fix applied.
 Two further known findings are not operator-level: C12-bare-path is carried by `compile` (its `wrap`
-argument says whether the route rewrites a bare path into an existence test), C12-fn-arg-rotation is a
-defect of the script PARSER, which is not modelled: the harness feeds the model the tree the parser
-builds (fnarg family).
+argument says whether the route rewrites a bare path into an existence test), C12-fn-arg-rotation (repaired by
+cd355fe) was a defect of the script PARSER, which is not modelled: the harness fed the model the tree the
+parser built (fnarg family, now run on the written tree).
 
 Left out (not modelled, not exercised): user-registered functions (code 'U'), the `get` pseudo
 operator (never placed in a program), data that is not made of nil/bool/int64/float64/string/[]any/
@@ -37,7 +38,10 @@ structure Dev where
   viaF64 : Bool
   deriving DecidableEq, Inhabited
 
+/-- the tree as first pinned (before the `fix:` commits 0a3fd2c and 21415f8) -/
 def Dev.pinned : Dev := ⟨true, true, true⟩
+/-- the code as it is now: only the int-via-float64 deviation is left at operator level -/
+def Dev.current : Dev := ⟨false, false, true⟩
 def Dev.fixed : Dev := ⟨false, false, false⟩
 
 /-- the float an int64 is compared as -/
@@ -355,9 +359,9 @@ def flatten : Tm → List Item
   | .app1 o a => if o.cnt = 1 then .op o :: flatten a else .op o :: (flatten a ++ [.val .null])
   | .app2 o a b => if o.cnt = 1 then .op o :: flatten a else .op o :: (flatten a ++ flatten b)
 
-/-- `wrap` = the route goes through `Equation.Script()` with a parsed bare path (`e.o == nil` and the
-result is an `Expr`): only there is a bare path turned into `path exists true`. `Filter()`, and
-`Script()` of a `jp.Get(x)` equation, keep the bare path (known finding C12-bare-path). -/
+/-- `wrap` = the route goes through `Equation.Script()` (text read by `NewScript`, or — since fe63c88 —
+a built `jp.Get(x)` equation): a bare path is turned into `path exists true`. `Equation.Filter()`
+(`$[?(@.a)]`, `Expr.Filter`) keeps the bare path: known finding C12-bare-path. -/
 def compile (wrap : Bool) (t : Tm) : List Item :=
   match t with
   | .path p => if wrap then [.op .exists, .path p, .val (.bool true)] else [.path p]
